@@ -909,11 +909,67 @@ def _nonsentinel_distinct_count(e, base):
     return None
 
 
+def _memo_value(ctx, f):
+    """the getter keeps its result: `if self._m is None: self._m = E` ... `return self._m`.  Returns (E, None) when the kept attribute
+    is only ever seeded with None; (E, seed text) when a construction site hands in another value for it; None when the getter is not
+    of that shape."""
+    r = returns(f.node)
+    if not (len(r) == 1 and isinstance(r[0].value, ast.Attribute) and U(r[0].value.value) == "self"):
+        return None
+    m = r[0].value.attr
+    own = [st for st in walk_own(f.node) if isinstance(st, ast.Assign) and len(st.targets) == 1 and U(st.targets[0]) == f"self.{m}"]
+    if len(own) != 1:
+        return None
+    par = enclosing_map(f.node)
+    guard = par.get(own[0])
+    if not (isinstance(guard, ast.If) and U(guard.test).replace(" ", "") in (f"self.{m}isNone",) and par.get(guard) is f.node):
+        return None
+    E = inline(own[0].value, single_defs(f.node))
+    while isinstance(E, ast.Call) and call_name(E) == "int" and len(E.args) == 1:
+        E = E.args[0]
+    R = ctx.R
+    cq = f.class_q
+    seeds = []
+    for q, g in R.funcs.items():
+        if g.class_q != cq or g is f:
+            continue
+        for st in walk_own(g.node):
+            if isinstance(st, (ast.Assign, ast.AnnAssign)) and any(U(t) == f"self.{m}" for t in (st.targets if isinstance(st, ast.Assign) else [st.target])) and st.value is not None:
+                v = st.value
+                if isinstance(v, ast.Constant) and v.value is None:
+                    continue
+                if isinstance(v, ast.Name) and v.id in g.params and g.name == "__init__":
+                    # who passes it
+                    cname = cq.rsplit(".", 1)[-1]
+                    for q2, h in R.funcs.items():
+                        for c in calls(h.node):
+                            if (call_name(c) == cname or (call_name(c) == "cls" and h.class_q == cq)) and v.id in kwargs(c):
+                                kv = kwargs(c)[v.id]
+                                if not (isinstance(kv, ast.Constant) and kv.value is None):
+                                    seeds.append(f"{h.site()}: {v.id}={U(kv)[:60]}")
+                    continue
+                seeds.append(f"{g.site()}: {U(st)[:70]}")
+    return E, (seeds[0] if seeds else None)
+
+
 def r7(ctx):
     C03.r4(ctx, rule="R7")
     N = Norm(strict=False)
     f = ctx.fn("data.ExperimentSpace.n_unique_treatments")
     r = returns(f.node)
+    kept = {}
+    for nm_ in ("n_unique_treatments", "n_unique_samples"):
+        g_ = ctx.fn(f"data.ExperimentSpace.{nm_}")
+        mv = _memo_value(ctx, g_)
+        if mv is not None and mv[1] is not None:
+            ctx.bad("R7", f"{g_.site()}::from-mapping", f"`{nm_}` is kept in an attribute that a construction site seeds ({mv[1]}): the size then is what the caller counted "
+                    f"(the ids present in a screen's rows), not the size of the mapping - a screen built on a mapping for a superset of its data has ids at or above it")
+            return
+        if mv is not None:
+            kept[nm_] = mv[0]            # seeded with None only: the kept value is the computed one
+    r = returns(f.node)
+    if "n_unique_treatments" in kept:
+        r = [ast.Return(value=kept["n_unique_treatments"])]
     want = [N.key(parse_expr("np.unique(np.setdiff1d(self.treatment_mapping[2], np.array([CONTROL_SENTINEL_VALUE]))).size")),
             N.key(parse_expr("np.setdiff1d(self.treatment_mapping[2], np.array([CONTROL_SENTINEL_VALUE])).size")),
             N.key(parse_expr("len(np.setdiff1d(self.treatment_mapping[2], [CONTROL_SENTINEL_VALUE]))")),
@@ -929,6 +985,8 @@ def r7(ctx):
               f"(subtracting 1 unconditionally is wrong for a mapping without a control; counting row ids shrinks after a split)")
     f = ctx.fn("data.ExperimentSpace.n_unique_samples")
     r = returns(f.node)
+    if "n_unique_samples" in kept:
+        r = [ast.Return(value=kept["n_unique_samples"])]
     want = [N.key(parse_expr("np.unique(self.sample_mapping[0]).size")), N.key(parse_expr("np.unique(self.sample_mapping[1]).size")), N.key(parse_expr("len(self.sample_mapping[0])")),
             N.key(parse_expr("len(np.unique(self.sample_mapping[0]))"))]
     ctx.check("R7", f"{f.site()}::from-mapping", len(r) == 1 and N.key(r[0].value) in want, "number of distinct samples in the mapping",
